@@ -172,7 +172,14 @@ def record_and_validate(ctx, sources, c, ntraces, length, corrupt=False):
             spec = S.norm_obs(d['expected'])
             real = step['post'][d['slot'] - 1]
             pre = traces[idx]['events'][d['l'] - 2]['post'][ev['o'] - 1] if d['l'] > 1 else {'kind': spec['kind']}
-            key = S.classify_diff(ev, pre, real, spec, S.diff(real, spec) or d.get('field', ''))
+            prev_post = traces[idx]['events'][d['l'] - 2]['post'] if d['l'] > 1 else None
+            if ev['op'] in S.PRODUCERS:
+                target = next((o + 1 for o in range(c['MaxObj'])
+                               if (prev_post[o]['kind'] == 'N' if prev_post else o > 0)), 0)
+            else:
+                target = ev['o']
+            field = S.diff(real, spec) or d.get('field', '')
+            key = S.classify_diff(ev, pre, real, spec, field) if d['slot'] == target else f"frame/{ev['op']}/{field}"
         ctx.violation(f'{PID}/{key}', 'recorded post-state differs from Apply(objs, e) of the specification',
                       {'seed': meta[idx][0], 'src': traces[idx]['src'], 'flavour': meta[idx][1], 'diag': d,
                        'events': [x['ev'] for x in traces[idx]['events'][:d['l']]], 'logged': step})
